@@ -9,6 +9,7 @@ use crate::progen::*;
 use crate::rng::Rng;
 use ciphercore_base::data_types::*;
 use ciphercore_base::data_values::Value;
+use ciphercore_base::graphs::Operation;
 use serde_json::json;
 
 pub const HEADER: &str = "From CC Require Import Base.Prelude Base.Scalar Base.Ty Base.Shape Graph.Value Graph.IR Graph.Eval.";
@@ -32,6 +33,35 @@ pub fn emit_eval_case(p: &Prog, rng: &mut Rng, out: &mut Out, kind: &str) {
     let lhs = format!("eval_graph_nodes {} {}", nodes_coq(&p.g), tape_coq(&p.g, &vals));
     let rhs = expected_coq(&p.g, &vals);
     out.case(kind, lhs, rhs, json!({"ops": ops, "input_types": p.input_types.iter().map(|t| format!("{}", t)).collect::<Vec<_>>()}), nodes.len() > p.input_types.len() + 1);
+    // native oracle for the data-movement operations: every element of the result is an element of
+    // an operand (no element may be altered, e.g. truncated to 64 bits)
+    for (n, v) in nodes.iter().zip(vals.iter()) {
+        let moves = matches!(n.get_operation(), Operation::Stack(_) | Operation::Concatenate(_) | Operation::Get(_) | Operation::GetSlice(_) | Operation::Gather(_) | Operation::PermuteAxes(_) | Operation::Reshape(_) | Operation::ArrayToVector | Operation::VectorToArray | Operation::ApplyPermutation(_));
+        if !moves { continue; }
+        let flat = |v: &Value, t: &Type| -> Vec<u128> {
+            fn go(v: &Value, t: &Type, acc: &mut Vec<u128>) {
+                match t {
+                    Type::Scalar(st) => { if let Ok(x) = v.to_u128(*st) { acc.push(x); } }
+                    Type::Array(_, _) => { if let Ok(xs) = v.to_flattened_array_u128(t.clone()) { acc.extend(xs); } }
+                    Type::Vector(_, et) => { if let Ok(vs) = v.to_vector() { for c in vs.iter() { go(c, et, acc); } } }
+                    Type::Tuple(ts) => { if let Ok(vs) = v.to_vector() { for (c, t) in vs.iter().zip(ts.iter()) { go(c, t, acc); } } }
+                    Type::NamedTuple(fs) => { if let Ok(vs) = v.to_vector() { for (c, (_, t)) in vs.iter().zip(fs.iter()) { go(c, t, acc); } } }
+                }
+            }
+            let mut acc = vec![]; go(v, t, &mut acc); acc
+        };
+        if let Outcome::Ok(rv) = v {
+            let mut pool: std::collections::HashSet<u128> = std::collections::HashSet::new();
+            let deps = n.get_node_dependencies();
+            // the first operand carries the data (index operands of Gather/ApplyPermutation are not data)
+            let data_deps = match n.get_operation() { Operation::Gather(_) | Operation::ApplyPermutation(_) => 1, _ => deps.len() };
+            for d in deps.iter().take(data_deps) { if let Outcome::Ok(dv) = &vals[d.get_id() as usize] { for x in flat(dv, &d.get_type().unwrap()) { pool.insert(x); } } }
+            let res = flat(rv, &n.get_type().unwrap());
+            if let Some(bad) = res.iter().find(|x| !pool.contains(x)) {
+                out.violation("structural-op-alters-element", json!({"op": op_name(&n.get_operation()), "type": format!("{}", n.get_type().unwrap()), "ops": ops}), format!("result element {} is not an element of any operand", bad));
+            } else { out.oracle_ok(); }
+        }
+    }
     if tag == "Panic" {
         out.violation("evaluate-node-panics", json!({"ops": ops, "input_types": p.input_types.iter().map(|t| format!("{}", t)).collect::<Vec<_>>()}), "SimpleEvaluator panicked on a graph the builder accepted".into());
     }
